@@ -221,6 +221,17 @@ def systematic_rule_blocks():
         for c in ("0", "1"):
             out.append("PUSH %s SWAP2 %s" % (c, op))      # modulus constant
             out.append("PUSH %s %s" % (c, op))
+        # constant folding where the intermediate sum/product exceeds 2^256 (it must NOT be reduced before the modulus)
+        big = ["f" * 64, "8" + "0" * 63, "f" * 63 + "e"]
+        for m in ("7", "3e8", "f" * 64, "10000000000000000"):
+            for a in big:
+                for b in big[:2]:
+                    out.append("PUSH %s PUSH %s PUSH %s %s" % (m, a, b, op))
+    # binary folds of two constants around the word size
+    for op in OP2:
+        for a, b in (("f" * 64, "2"), ("2", "f" * 64), ("8" + "0" * 63, "f" * 64), ("f" * 64, "f" * 64), ("100", "1"), ("1", "100"),
+                     ("ff", "8" + "0" * 63)):
+            out.append("PUSH %s PUSH %s %s" % (a, b, op))
     return out
 
 
@@ -315,4 +326,19 @@ def mem_heavy_blocks(seed, n):
             elif h >= 1:
                 b.append("POP"); h -= 1
         out.append(" ".join(b))
+    return out
+
+
+def deep_split_blocks():
+    """Split instructions (LOGn, *COPY, CALL, stores under -storage) whose operands sit between depth 8 and 14 of the
+    stack the block touches: boundaries s(9)/s(10) of the sub-block source/target stacks."""
+    out = []
+    for d in range(7, 15):
+        out.append("DUP%d PUSH 0 MSTORE PUSH 20 PUSH 0 LOG0" % d)
+        out.append("PUSH 20 PUSH 0 LOG0 DUP%d DUP2 ADD SWAP1 POP" % d)
+        out.append("DUP%d DUP%d PUSH 20 PUSH 0 LOG1 POP" % (d, min(d + 1, 16)))
+        out.append("DUP%d PUSH 1 ADD PUSH 20 PUSH 0 LOG1 DUP%d PUSH 2 PUSH 3 ADD ADD SWAP1 POP" % (d, d))
+        out.append("PUSH 20 DUP%d PUSH 0 CALLDATACOPY DUP%d PUSH 0 PUSH 0 ADD ADD" % (d, d))
+        out.append("DUP%d DUP%d SSTORE DUP%d PUSH 1 PUSH 0 ADD ADD SWAP1 POP" % (d, min(d + 1, 16), d))
+        out.append("SWAP%d PUSH 0 PUSH 0 ADD MSTORE PUSH 20 PUSH 0 LOG0 DUP%d" % (d, d))
     return out
